@@ -1,7 +1,7 @@
 (* Correspondence for C03: the certificate data the Go x509/asn1 libraries
    produced, the symbolic signature terms the harness built the certificates
    from, and what crypto/tls and transport/common/quic answered. *)
-From Bifrost Require Import Lib.Base Lib.Sym Tls.Model.
+From Bifrost Require Import Lib.Base Lib.Sym Tls.Model Link.Model Dial.Model Dial.Run.
 
 (* observed result: k >= 0 accepted with peer key k (or peer id for Shake), -1 error, -2 panic *)
 Definition obs_of_nat (o : outcome nat) : Z :=
@@ -12,7 +12,11 @@ Definition obs_of_z (o : outcome Z) : Z :=
 Inductive c03_case :=
 | Chain (chain : list cert) (obs : Z)                       (* PubKeyFromCertChain *)
 | Verify (remote : Z) (raw : list rawcert) (obs : Z)        (* ConfigForPeer(remote).VerifyPeerCertificate *)
-| Shake (expected : Z) (a : attempt) (obs : Z).             (* real QUIC/TLS handshake + NewLink: link remote peer *)
+| Shake (expected : Z) (a : attempt) (obs : Z)              (* real QUIC/TLS handshake + NewLink: link remote peer *)
+(* Transport.DialPeer calls with different expected peers, overlapping on one
+   address (dial functions with an empty TLS constraint + DialPeer's post-check):
+   result per call, see Dial/Run.v Shared *)
+| SharedDial (a : Z) (e : list cev) (obs : list Z).
 
 (* the message a harness-built signature covers: prefix bytes ++ PKIX(cert key) *)
 Definition msg_of (prefix : bytes) (certkey : Z) : sbytes := lift prefix ++ pkix certkey.
@@ -22,4 +26,5 @@ Definition c03_agree (c : c03_case) : bool :=
   | Chain chain obs => Z.eqb (obs_of_nat (pubkey_from_chain chain)) obs
   | Verify remote raw obs => Z.eqb (obs_of_nat (verify_peer remote raw)) obs
   | Shake expected a obs => Z.eqb (obs_of_z (handshake expected a)) obs
+  | SharedDial a e obs => c05_agree (Shared a e obs)
   end.
